@@ -3930,6 +3930,8 @@ reinit:
               goto fail_resp;
             }
           }
+          /* The transfer is making progress */
+          coap_ticks(&lg_crcv->last_used);
           if (block.m || !check_all_blocks_in(&lg_crcv->rec_blocks,
                                               (size2 + chunk -1) / chunk)) {
             /* Not all the payloads of the body have arrived */
